@@ -315,7 +315,23 @@ pub fn gen_c13(rng: &mut Rng, thorough: bool) -> WorldTrace {
     };
     let order = rng.perm(world.decls.len());
     let k = rng.range(1, 3.min(world.decls.len().max(1)));
-    let files = partition(rng, &order, k, Enc::Utf8);
+    let mut files = partition(rng, &order, k, Enc::Utf8);
+    let mut world = world;
+    if rng.chance(1, 4) {
+        // a larger directory: 3-12 more one-declaration files, some with names that differ only
+        // in letter case or extension from others, some hidden
+        let odd = [".hidden.st", "A.ST", "a.iec", "b.st.bak", "B.st", "lib.st", "MAIN.st", "zz.txt"];
+        for i in 0..rng.range(3, 12) {
+            let name = if rng.chance(1, 3) { odd[rng.below(odd.len())].to_string() } else { format!("x{i}.st") };
+            if files.iter().any(|f| f.name == name) {
+                continue;
+            }
+            let idx = world.decls.len();
+            world.decls.push(pool::Decl { text: format!("FUNCTION_BLOCK Fill{i}\n  VAR\n    k : INT;\n  END_VAR\n  k := {i};\nEND_FUNCTION_BLOCK\n"), kind: "filler".into(), name: format!("Fill{i}") });
+            files.push(FileSpec { name, decls: vec![idx], enc: Enc::Utf8, raw: None });
+        }
+        rng.shuffle(&mut files);
+    }
     let base = |role: &str, entry: Entry, args: Vec<String>, rng: &mut Rng| Variant {
         role: role.to_string(),
         entry,
@@ -508,7 +524,21 @@ const UNICODE_EXTRAS: &[&str] = &["→ 日本語", "Ω ≈ ∑", "😀 emoji", "
 fn decorate(rng: &mut Rng, world: &mut World, repertoire_1252: bool) {
     for d in world.decls.iter_mut() {
         let extra = if repertoire_1252 || rng.chance(1, 2) { *rng.pick(W1252_EXTRAS) } else { *rng.pick(UNICODE_EXTRAS) };
-        match rng.below(4) {
+        match rng.below(6) {
+            4 => {
+                // an OSCAT description header (blanked by the preprocessor) holding non-ASCII text
+                if let Some(p) = d.text.find('\n') {
+                    d.text.insert_str(p + 1, &format!("(*@KEY@:DESCRIPTION*)\n{extra} {extra}\n(*@KEY@:END_DESCRIPTION*)\n"));
+                }
+            }
+            5 => {
+                // a large comment: decoders and position arithmetic must not depend on file size
+                if rng.chance(1, 8) {
+                    let kb = rng.range(8, 70);
+                    let line = format!("(* {extra} {} *)\n", "padding ".repeat(12));
+                    d.text = format!("{}{}", line.repeat(kb * 1024 / line.len()), d.text);
+                }
+            }
             0 => d.text = format!("(* {extra} *)\n{}", d.text),
             1 => {
                 // a string variable inside the first VAR block of a POU
